@@ -47,6 +47,24 @@ def _worker_setup(pid, repo):
     _W['hs'] = {h.name: h for h in mod.HARNESSES}
 
 
+# optional line coverage of the library under the symbolic runs (SYMX_COVER=1; diagnostic for tools/cover_report.py only)
+_COVER = set() if os.environ.get('SYMX_COVER') else None
+
+
+def _cover_tracer(frame, event, arg):
+    fn = frame.f_code.co_filename
+    if '/elftools/' not in fn:
+        return None
+    key = fn[fn.index('/elftools/') + 1:]
+
+    def local(frame, event, arg):
+        if event == 'line':
+            _COVER.add((key, frame.f_lineno))
+        return local
+    _COVER.add((key, frame.f_lineno))
+    return local
+
+
 def run_task(task):
     try:
         return _run_task(task)
@@ -90,6 +108,8 @@ def _run_task(task):
         status = 'done'
         exc_info = None
         try:
+            if _COVER is not None:
+                sys.settrace(_cover_tracer)
             h.fn(ctx)
             outcome = ctx._outcome or 'return'
         except core.PathAbort:
@@ -106,6 +126,8 @@ def _run_task(task):
             status = 'exc'
             outcome = exc_label(e)
             exc_info = traceback.format_exc().splitlines()[-10:]
+        if _COVER is not None:
+            sys.settrace(None)
         res['decisions'] += ex.pos
         res['maxdepth'] = max(res['maxdepth'], ex.pos)
         if status == 'abort':
@@ -154,6 +176,8 @@ def _run_task(task):
     res['unknowns'] = ex.unknowns
     res['slow'] = ex.slow[:5]
     res['functions'] = sorted(loader.SEEN)
+    if _COVER is not None:
+        res['lines'] = sorted(_COVER)
     res['wall'] = time.time() - t0
     return res
 
@@ -225,6 +249,7 @@ def decide(pid, tier, jobs, repo, seed, only=None, verbose=False):
             t = {'pid': pid, 'repo': repo, 'harness': h.name, 'cfg': cfg, 'prefixes': [[]], 'tier_params': dict(tp, **h.budget.get(tier, {})), 'seed': seed + len(tasks)}
             tasks.append(t)
     functions = set()
+    cover_lines = set()
     deadline = t_start + tp['deadline_s']
     timed_out = False
     pending = {}
@@ -264,6 +289,8 @@ def decide(pid, tier, jobs, repo, seed, only=None, verbose=False):
                 if len(st['samples']) < 3:
                     st['samples'] += r['samples']
                 functions.update(r['functions'])
+                if r.get('lines'):
+                    cover_lines.update(map(tuple, r['lines']))
                 left = r['leftover']
                 if left:
                     nsplit = min(len(left), 4 if len(left) < 64 else 8)
@@ -433,6 +460,10 @@ def decide(pid, tier, jobs, repo, seed, only=None, verbose=False):
     for hname, st in per_h.items():
         samples += st['samples'][:2]
     functions = sorted(f for f in functions)
+    if cover_lines:
+        os.makedirs(os.path.join(VERIF, 'out'), exist_ok=True)
+        with open(os.path.join(VERIF, 'out', 'cover_%s.json' % pid), 'w') as f:
+            json.dump(sorted(cover_lines), f)
     evidence = {
         'property_id': pid, 'tier': tier, 'seed': seed, 'level': 'model_checking',
         'coverage': {
@@ -517,4 +548,13 @@ def main(argv=None):
 
 
 if __name__ == '__main__':
-    sys.exit(main())
+    try:
+        rc = main()
+    except SystemExit:
+        raise
+    except BaseException:
+        # a crash of the machinery is not a verdict on the property: reserved exit code 2, never 1
+        traceback.print_exc()
+        print('HARNESS-ERROR: the checker itself failed (no verdict)')
+        rc = 2
+    sys.exit(rc)
